@@ -22,7 +22,21 @@ def setup(rep, scr, variants):
     md = vlib.build_model()
     return impls, consts, md
 
+def public_macros(rep, pid):
+    """T2 (interface): every public function-like macro of the working tree's headers still expands to a plain call of its
+    _<name>_chk entry point -- the object the models, the theorems and the drivers are about (harness/macros_tr.py)"""
+    import macros_tr
+    try:
+        ent, prob = macros_tr.analyse(vlib.REPO, [vlib.REPO, vlib.REPO + '/include'])
+    except Exception as ex:
+        rep.violation('translator macros_tr failed on the headers of the working tree: %s' % ex, {'key': 'macros-tr', 'property': pid, 'no_failing_input': True}); return
+    rep.extra['public_macros_checked'] = len(ent)
+    for name, why, e in prob:
+        rep.violation('public macro %s %s: "%s" -- callers of %s no longer reach the entry point the model describes' % (name, why, e[:200], name),
+                      {'key': ('macro', name), 'property': pid, 'function': name, 'no_failing_input': True, 'broken': 'correspondence T2 (harness/macros_tr.py): expansion of %s in include/' % name, 'expansion': e})
+
 def proofs(rep, scr, pid):
+    public_macros(rep, pid)
     pr = vlib.compile_properties(pid, scr)
     rep.obligations = len(pr['theorems'])
     rep.discharged = len(pr['theorems']) if pr['ok'] else 0
@@ -179,7 +193,7 @@ def check_copy_family(rep, scr, tier, seed):
     if pid == 'C02': c02_query_extents(rep, scr, impls['O1'], md, consts['O1'], tier, seed)
     if pid in ('C01', 'C03', 'C04', 'C05', 'C06'):
         for v in variants: getenv_batch(rep, scr, impls[v], md, consts[v], pid, v, tier, seed)
-    if pid == 'C05': printf_report_batch(rep, scr, impls['O1'], consts['O1'], tier, seed)
+    if pid == 'C05': printf_report_batch(rep, scr, impls['O1'], consts['O1'], tier, seed); sort_report_batch(rep, scr, impls['O1'], consts['O1'], tier, seed)
     if pid in ('C01', 'C02', 'C03', 'C04', 'C05', 'C06', 'C07', 'C08'):
         for v in variants: sweep_batch(rep, scr, impls[v], consts[v], pid, v, tier, seed, md)
     report_proofs(rep, pr, pid)
@@ -236,6 +250,41 @@ def printf_report_batch(rep, scr, impl, consts, tier, seed):
         if b is not None and b.get('known') == '1':
             mine = (a.ret, ','.join(str(h) for h in hs) or '-'); theirs = (b['ret'], b['h'])
             if mine != theirs: rep.mismatches.append((c, a, vlib.Outcome('%s ret=%s model=%s' % (c.id, b['ret'], ';'.join('%s:%s' % kv for kv in sorted(b.items())))), 'O1'))
+
+def sort_report_batch(rep, scr, impl, consts, tier, seed):
+    """C05 for qsort_s / bsearch_s (C11 K.3.6.3): nmemb or size above RSIZE_MAX, or (nmemb != 0 and a null base / comparator / key)
+    is reported exactly once with the returned code; every other call reports nothing -- the whole cross product of the argument classes"""
+    rmax = consts['rmax_mem']; cs = []; k = 0
+    data = bytes(range(16, 48))
+    for base_null in (False, True):
+        for nm in (0, 1, 3, rmax, rmax + 1):
+            for size in (0, 1, 4, rmax, rmax + 1):
+                for cmp_null in (False, True):
+                    if not base_null and not cmp_null and nm * size > len(data): continue      # a valid, huge request: would really sort
+                    k += 1
+                    cs.append(vlib.Case('sr%d' % k, 'qsort_s', [('R', data)], [None if base_null else (0, 0), nm, size, UNK, 0 if cmp_null else 1],
+                                        dict(cls='sort-report', func='qsort_s', nmemb=nm, size=size, base_null=base_null, cmp_null=cmp_null,
+                                             violates=(nm > rmax or size > rmax or (nm != 0 and (base_null or cmp_null))))))
+    cf = '%s/cases_c05s.txt' % scr.dir
+    with open(cf, 'w') as f:
+        for c in cs: f.write(c.line() + '\n')
+    oi = vlib.run_impl(impl, cf, cs)
+    for c in cs:
+        a = oi.get(c.id); m = c.meta
+        rep.evals += 1; rep.count('qsort_s/sort-report/%s' % ('violating' if m['violates'] else 'valid'))
+        if a is None: continue
+        fails = []
+        if a.fault != '-': fails.append(('fault', 'faulted at %s' % a.fault))
+        else:
+            rc = int(a.ret.split(',')[0]); hs = [int(cc) for kk, cc in a.handlers]
+            rep.nontrivial.add(('qsort_s', 'sort-report', rc, len(hs)))
+            if m['violates']:
+                if rc == 0 or hs != [rc]: fails.append(('violation-not-reported', 'nmemb=%d size=%d base %s comparator %s violates a runtime constraint but the call returned %d with handler invocations %s' % (m['nmemb'], m['size'], 'null' if m['base_null'] else 'non-null', 'null' if m['cmp_null'] else 'non-null', rc, hs)))
+            elif rc != 0 or hs: fails.append(('valid-reported', 'valid arguments (nmemb=%d size=%d) but the call returned %d with handler invocations %s' % (m['nmemb'], m['size'], rc, hs)))
+        for kind, t in fails:
+            kid = known.classify(rep, c, a, kind, 'O1', consts)
+            if kid: rep.known_hits[kid] = rep.known_hits.get(kid, 0) + 1
+            else: rep.violation('qsort_s: %s' % t, {'key': ('qsort_s', kind, 'sort-report'), 'property': 'C05', 'function': 'qsort_s', 'failure': kind, 'case': c.to_json(), 'case_line': c.line(), 'impl_outcome': a.raw, 'what': t})
 
 def getenv_batch(rep, scr, impl, md, consts, pid, var, tier, seed):
     """getenv_s: value lengths around dmax, unset variable, null arguments; model (libc getenv as an oracle) and reference"""
